@@ -17,6 +17,40 @@ class FragMixin:
     def nontrivial(self, case, obs):
         return ";3," in ";" + obs
 
+    def batch_oracle(self, cases, impl, verdicts):
+        """fragmentation independence proper: all deliveries of the same stream (same max_size) must give the same
+        packets, with the payload pieces of each PUBLISH glued together; runs that end inside a message are compared
+        up to that message"""
+        verdicts = list(verdicts)
+        groups = {}
+        for i, c in enumerate(cases):
+            f = c.split(";")
+            if len(f) >= 3 and verdicts[i].startswith("1"):
+                groups.setdefault((f[0].split(",")[0], f[2]), []).append(i)
+        for key, idx in groups.items():
+            if len(idx) < 2:
+                continue
+            norm = []
+            for i in idx:
+                o = impl[i]
+                n = normalise(o, self)
+                last = o.split(";")[-1].split(",")
+                complete = last[0] == "5" and last[2] == "0"
+                norm.append((n, complete, o.split(";")[-1] if last[0] == "4" else None))
+            ref = None
+            for n, complete, err in norm:
+                if complete or err:
+                    ref = (n, err)
+                    break
+            if ref is None:
+                continue
+            for i, (n, complete, err) in zip(idx, norm):
+                a = [(x[0], x[1], tuple(x[2])) for x in n]
+                b = [(x[0], x[1], tuple(x[2])) for x in ref[0]]
+                if (complete or err) and (a != b):
+                    verdicts[i] = "0,11"
+        return verdicts
+
 
 class F3(FragMixin, cc.Dec3Part):
     pass
@@ -26,17 +60,21 @@ class F5(FragMixin, cc.Dec5Part):
     pass
 
 
-def normalise(obs):
-    """glue payload pieces: list of (kind, header, payload bytes)"""
+def normalise(obs, part=None):
+    """glue payload pieces: list of [kind, header text, payload bytes]; the PUBLISH header text excludes the
+    length and bytes of the first payload piece (they depend on the fragmentation)"""
     out = []
     for f in obs.split(";"):
         h = f.split(",")
         if h[0] == "3" and out and out[-1][0] == "2":
             out[-1][2].extend(h[2:])
         elif h[0] == "2":
-            out.append(["2", None, None])
-            out[-1][1] = f
-            out[-1][2] = []
+            pr = part.parse_publish_item(h) if part is not None else None
+            if pr is None:
+                out.append(["2", f, []])
+            else:
+                plen = pr[1]
+                out.append(["2", ",".join(h[:len(h) - plen - 1]), list(h[len(h) - plen:]) if plen else []])
         elif h[0] in ("1", "4"):
             out.append([h[0], f, []])
     return out
@@ -68,6 +106,10 @@ def replay_parts(rp):
 
 def known_signature(part, case, impl_obs, oracle):
     return None
+
+
+cc.DEC_CLAUSES["11"] = ("the packets (payload pieces glued) obtained from this fragmentation differ from those of "
+                        "another fragmentation of the same byte stream")
 
 
 def clause_text(part, oracle):
